@@ -56,7 +56,16 @@ def main(argv):
                             p=spec["line_jitter"][0], max_sleep=spec["line_jitter"][1], thread_prefix="")
             lj.__enter__()
         try:
-            _s, _m, obj, res = env.stage_and_transfer(odb, spec["ws"], shallow=False)
+            if spec.get("upload_rel"):
+                # upload staging from a cwd-relative source path: every writer sits in its own directory and names its data "data"
+                from dvc_data.hashfile.build import build as _build
+                from dvc_data.hashfile.transfer import transfer as _transfer
+
+                os.chdir(spec["upload_rel"])
+                staging, _m, obj = _build(odb, "data", env.localfs(), "md5", upload=True)
+                res = _transfer(staging, odb, {obj.hash_info}, shallow=False, hardlink=True)
+            else:
+                _s, _m, obj, res = env.stage_and_transfer(odb, spec["ws"], shallow=False)
         finally:
             if lj is not None:
                 lj.__exit__()
